@@ -141,8 +141,9 @@ def c02_finding_key(case):
     return "array-values-inserted-twice" if doubled else None
 
 CHECKS["C02"] = dict(
-    stages=[dict(sub="c02", quick=96, thorough=3000, shrink=["rounds"], parallel=16, shards=16),
-            dict(sub="c02", mode="db", quick=48, thorough=1000, shrink=["rounds"], parallel=16, shards=16, seed_salt=55)],
+    stages=[dict(sub="c02", quick=64, thorough=3000, shrink=["rounds"], parallel=16, shards=16),
+            dict(sub="c02", mode="db", quick=32, thorough=1000, shrink=["rounds"], parallel=16, shards=16, seed_salt=55),
+            dict(sub="c02", mode="enum", quick=1, thorough=96, shrink=[], parallel=16, shards=16, shard_min=2, seed_salt=91)],
     finding_key=c02_finding_key,
     assumptions=["a kill preserves the file system (process kill, not power loss): every rename/remove is atomic and durable once it returned; temp files live outside the table directory",
                  "the WAL (getlantern/wal) is external: opened with sync on every write; assumed to return acknowledged entries in order with stable offsets and to drop a torn tail",
@@ -153,7 +154,7 @@ CHECKS["C02"] = dict(
     what_fails="after kills and restarts on one directory a table reflects an acknowledged insert not exactly once (lost or double counted), reflects an unacknowledged one more than once, or a child never finishes (Close or reopening hangs)",
     rule=("generated table 't' + table 'tid' = SUM(one) WHERE d2 <> 1 GROUP BY pid (pid unique per point; 20% of the points carry an array of 2..450 values = several row-store inserts with one offset); 1-3 rounds of 2-9 operations from "
           "{insert batch, insert with a flush landing while its values are applied, FlushAll, wait for quiescence, sleep}, each round ended by an armed crash point (15 points x n-th hit), SIGKILL after 0-6 ms, exit without Close, or Close; "
-          "then restart, catch up, observe. stage c02: per-entry multiplicities in tid vs Model/Crash.v run on the same history; stage c02/db: rows of 't' vs the specification model over the acknowledged points (scalar values only). "
+          "then restart, catch up, observe. stage c02: per-entry multiplicities in tid vs Model/Crash.v run on the same history; stage c02/db: rows of 't' vs the specification model over the acknowledged points (scalar values only); stage c02/enum: fault enumeration — one history killed at every occurrence of every instrumented step an un-killed run passes (about 30-60 kill points per history). "
           "non-trivial: every case ends at least one round by a kill or close and reopens"))
 
 CHECKS["C03"] = dict(_db("c03", 64, 3200, "a memstore-inclusive query depends on the flush/restart schedule, or a disk-only query after a flush differs from the memstore-inclusive one"),
